@@ -1,0 +1,25 @@
+//go:build verif
+
+package network
+
+import (
+	"time"
+
+	"go.uber.org/zap"
+)
+
+// VerifNewServer is newServerFromConstructors made reachable for the
+// verification harness: a complete Server on a caller-supplied transport and
+// discoverer (NewServer hard-wires TCP and the default discovery).
+func VerifNewServer(config ServerConfig, chain Ledger, stSync StateSync, log *zap.Logger,
+	newTransport func(*Server, string) Transporter,
+	newDiscovery func([]string, time.Duration, Transporter) Discoverer,
+) (*Server, error) {
+	return newServerFromConstructors(config, chain, stSync, log, newTransport, newDiscovery)
+}
+
+// VerifHandleConn runs the connection loop of the peer (what TCPTransport's
+// Dial and Accept start as a goroutine right after NewTCPPeer).
+func (p *TCPPeer) VerifHandleConn() {
+	p.handleConn()
+}
